@@ -414,3 +414,48 @@ func vh_C01_selectors() {
 	vAssert(!panicked, "no-panic-in-followup")
 	vReach("selectors")
 }
+
+// user-defined functions of every parameter shape, called with every number
+// of arguments 0..4 (too few, exact, too many) by three routes; the tail self
+// call inside a definition lays its arguments out at compile time.
+var vC01ParamShapes = []string{
+	`[]`, `[p]`, `[p q]`, `[#p]`, `[p #q]`, `[#p #q]`, `[p & r]`, `[#p & r]`, `[& r]`, `[p & #r]`, `[& #r]`, `[#p q & r]`,
+}
+
+func vh_C01_userfns() {
+	vFormatOpaque(true)
+	vBudgetOK()
+	env := NewZlispSandbox()
+	shape := vC01ParamShapes[vChoice("params", len(vC01ParamShapes))]
+	nargs := vChoice("nargs", 5)
+	first := vChoice("first", 3)
+	route := vChoice("route", 4)
+	args := ""
+	for i := 0; i < nargs; i++ {
+		switch {
+		case i == 0 && first == 1:
+			args += " unboundname"
+		case i == 0 && first == 2:
+			args += " (list 1 2)"
+		default:
+			args += " 7"
+		}
+	}
+	var src string
+	switch route {
+	case 0:
+		src = `(defn uf ` + shape + ` 1) (uf` + args + `)`
+	case 1:
+		src = `(defn uf ` + shape + ` 1) (apply uf [` + args + `])`
+	case 2:
+		src = `(defn uf ` + shape + ` (cond false (uf` + args + `) 0)) (uf)`
+	default:
+		src = `(def g (fn ` + shape + ` 1)) (def h g) ((begin h)` + args + `)`
+	}
+	vSetStepBudget(400000)
+	_, _, panicked := vEvalString(env, src)
+	vAssert(!panicked, "no-panic-escapes-eval")
+	_, _, panicked = vEval(env, vForm(env, "+", &SexpInt{Val: 1}, &SexpInt{Val: 2}))
+	vAssert(!panicked, "no-panic-in-followup")
+	vReach("userfns")
+}
